@@ -118,13 +118,22 @@ func Thorough() bool { return os.Getenv("VERIF_TIER") == "thorough" }
 // return concrete instants stepNs apart instead of symbolic ones (a stated bound).
 func ConcreteClock(stepNs int64) {}
 
-// PacedClock states how the wall clock moves in this harness: two consecutive readings differ
-// by at most maxStepNs unless a Pause lies between them (natively: nothing to do, the code
-// between two readings takes far less).
-func PacedClock(maxStepNs int64) {}
+// PacedClock: time is driven by the harness. Under the symbolic executor every clock reading
+// advances a concrete clock by stepNs and Pause(ns) advances it by ns, so which timing decisions
+// the code takes is explored through the placement of pauses (natively: nothing to do, the code
+// between two readings takes far less than a pause).
+func PacedClock(stepNs int64) {}
 
-// Pause lets ns..2ns of wall time pass (natively: sleeps ns).
+// Pause lets ns of wall time pass (natively: sleeps ns).
 func Pause(ns int64) { time.Sleep(time.Duration(ns)) }
+
+// Tier returns quick in the quick tier and thorough in the thorough tier (bounds of a harness).
+func Tier(quick, thorough int) int {
+	if Thorough() {
+		return thorough
+	}
+	return quick
+}
 
 type assumeFailed struct{}
 
@@ -194,6 +203,10 @@ func Logger() logrus.FieldLogger {
 const CrashLabel = "crash.unrecovered-panic"
 
 func RunReplay(t *testing.T, harnesses map[string]func()) {
+	if list := os.Getenv("ZZVERIF_REPLAY_LIST"); list != "" {
+		runAgreement(list, harnesses)
+		return
+	}
 	load()
 	if os.Getenv("ZZVERIF_REPLAY") == "" {
 		t.Skip("no replay file")
@@ -235,6 +248,53 @@ func RunReplay(t *testing.T, harnesses map[string]func()) {
 		}
 	}
 	fmt.Println("REPLAY-NOT-REPRODUCED")
+}
+
+// runAgreement re-runs inputs of paths the symbolic run completed without violation: natively
+// every assertion must pass as well (translator validation).
+func runAgreement(list string, harnesses map[string]func()) {
+	defer cleanupTemp()
+	for _, p := range bytes.Split([]byte(list), []byte(":")) {
+		file := string(p)
+		b, err := os.ReadFile(file)
+		if err != nil {
+			fmt.Printf("AGREE-MISMATCH %s unreadable\n", file)
+			continue
+		}
+		rf = replayFile{Nondet: map[string]string{}}
+		if err := json.Unmarshal(b, &rf); err != nil {
+			fmt.Printf("AGREE-MISMATCH %s bad json\n", file)
+			continue
+		}
+		loaded = true
+		h, ok := harnesses[rf.Harness]
+		if !ok {
+			continue
+		}
+		reset()
+		panicked := ""
+		func() {
+			defer func() {
+				if r := recover(); r != nil {
+					switch r.(type) {
+					case assumeFailed, cutT:
+					default:
+						panicked = fmt.Sprintf("%v", r)
+					}
+				}
+			}()
+			h()
+		}()
+		switch {
+		case panicked != "":
+			fmt.Printf("AGREE-MISMATCH harness=%s native panic: %s\n", rf.Harness, panicked)
+		case len(Violated) > 0:
+			fmt.Printf("AGREE-MISMATCH harness=%s native assertion failures: %v\n", rf.Harness, Violated)
+		default:
+			fmt.Printf("AGREE-OK %s\n", rf.Harness)
+		}
+	}
+	fmt.Println("AGREE-DONE")
 }
 
 // U64i / I64i are U64 / I64 whose arithmetic the symbolic executor encodes over
